@@ -311,6 +311,9 @@ def gen_ops(rng, tier):
         mk("ew_abs", (12, 1, 40)), mk("ew_lrelu", (3, 11, 9), bits=16), mk("ew_min", (7, 7, 7), ifm2=(1, 1, 7)),
         mk("depthwise", (12, 12, 40), None, (4, 4, 2, 2, 2, 2), bits=16),
         mk("conv", (64, 64, 128), 64, (3, 3, 1, 1, 1, 1)), mk("ew_add", (100, 100, 200), lut=True),
+        # one OFM row but a kernel taller than one row: the Conv1D accumulator saving must not apply
+        mk("conv", (1, 64, 128), 32, (3, 3, 1, 1, 1, 1)), mk("depthwise", (1, 40, 16), None, (2, 2, 1, 1, 1, 1)),
+        mk("maxpool", (1, 50, 24), None, (2, 2, 1, 1, 1, 1)), mk("conv", (1, 64, 64), 16, (1, 1, 1, 1, 1, 1), bits=16),
     ]
     n_small = 170 if tier == "quick" else 1500
     n_big = 50 if tier == "quick" else 400
@@ -532,6 +535,14 @@ def correspondence(res, rng, tier, stats):
             bw, bh, bd = uw * rng.randint(1, 64 // uw), uh * rng.randint(1, 32 // uh), ud * rng.randint(1, 128 // ud)
             if rng.random() < 0.6:  # near the fit boundary
                 bw, bh, bd = uw * rng.randint(1, 16 // uw), uh * rng.randint(1, 16 // uh), ud * rng.randint(1, 4)
+        elif rng.random() < 0.6:
+            # malformed stream: one dimension just outside the legal range / off the micro-block grid, the others small
+            bw, bh, bd = uw * rng.randint(1, 3), uh * rng.randint(1, 3), ud * rng.randint(1, 2)
+            mw, mh, md = a.ofm_block_max.width, a.ofm_block_max.height, a.ofm_block_max.depth
+            which = rng.randrange(9)
+            bw = [mw + uw, bw, bw, 0, bw, bw, bw + 1 if uw > 1 else -uw, bw, mw][which]
+            bh = [bh, mh + uh, bh, bh, 0, bh, bh, bh + 1 if uh > 1 else -uh, mh if which == 8 and rng.random() < 0.5 else bh][which]
+            bd = [bd, bd, md + ud, bd, bd, 0, bd, bd + 1, bd][which]
         else:
             bw, bh, bd = rng.randint(0, 66), rng.randint(0, 34), rng.randint(0, 136)
         tcases.append([ai, bw, bh, bd, bt.value, o[1], o[0], o[2], im[1], im[0], im[2], has2, i2[1], i2[0], i2[2], us, bits,
@@ -617,7 +628,7 @@ def api_oracle(res, rng, tier, stats):
         if time.time() - t0 > budget:
             stats["ops_skipped_time"] = len(ops) - oi
             break
-        for a in (accs if (oi < 24 or tier == "thorough") else rng.sample(accs, 3)):
+        for a in (accs if (oi < 28 or tier == "thorough") else rng.sample(accs, 3)):
             name = acc_name[a]
             op = build_op(d)
             try:
@@ -742,7 +753,8 @@ def run(tier):
                                   why="proved validator check_blockcfg rejects the emitted registers", regs=regs))
     if stats.get("find_bad"):
         fb = stats["find_bad"]
-        fails.append(dict(kind="search_invalid", accelerator="index %d" % fb["case"][0], op={"find_block_config_args": fb["case"]},
+        fails.append(dict(kind="search_invalid", accelerator=list(HW)[fb["case"][0]],
+                          op={"kind": "find_block_config", "find_block_config_args": fb["case"]},
                           block=tuple(fb["result"][9:12]), why=fb["why"]))
     nt = stats.pop("nontrivial")
     res.cov.update({
@@ -759,7 +771,7 @@ def run(tier):
                 "fed_back_through_generator": stats["generated"], "no_config_offered": stats["no_config"],
                 "op_not_generatable(for reasons other than the block)": stats["op_not_generatable"],
                 "ops_skipped_for_time": stats.get("ops_skipped_time", 0)},
-        "input_distribution": "corpus of 24 operations (existing tests, boundary shapes, Conv1D, LUT, 16/32 bit, scale_f32=None) x 6 "
+        "input_distribution": "corpus of 28 operations (existing tests, boundary shapes, Conv1D, LUT, 16/32 bit, scale_f32=None) x 6 "
                               "accelerators; then operations from the small grid h,w<=12 c<=40 kernel<=4 stride<=3 dilation<=2 "
                               "and larger random shapes x 3 random accelerators (all 6 in thorough); every offered block judged, "
                               "up to %d per operation fed back through the generator" % (10 if tier == "quick" else 60),
